@@ -683,6 +683,19 @@ Section SweeperTheorems.
     transitivity ((u m x -! dt *! C -! dt *! C') +! dt *! C +! dt *! C'); [ring|]. rewrite H. ring.
   Qed.
 
+  Theorem residual_zero_iff_collocation2 (u : nat -> V) f tau m x :
+    residual_vec kO kadd kmul ksub M dt Q 2 u f tau m x = kO <->
+    u m x = u 0 x +! dt *! sumf (fun j => Q m j *! (f j 0 x +! f j 1 x)) 1 M +! tauval tau m x.
+  Proof.
+    rewrite residual_is_defect.
+    rewrite (sumf_ext kO kadd (fun j => Q m j *! ftot kO kadd 2 (f j) x) (fun j => Q m j *! (f j 0 x +! f j 1 x)) 1 M)
+      by (intros j _; cbn [ftot]; unfold vadd, vzero; ring).
+    set (c := u 0 x +! dt *! sumf (fun j => Q m j *! (f j 0 x +! f j 1 x)) 1 M +! tauval tau m x).
+    split; intros H.
+    - transitivity (c -! (c -! u m x)); [ring | rewrite H; ring].
+    - rewrite H. ring.
+  Qed.
+
   (* Conversely the IMEX collocation solution (full right-hand side) is a fixed point of the IMEX sweep *)
   Theorem imex_collocation_is_fixed_point QI QE u f tau :
     solver_left_inverse 0 -> feval_ext -> lower_triangular QI -> strictly_lower_triangular QE -> consistent u f ->
